@@ -592,7 +592,8 @@ impl PrefixOps for Prefix4 {
 
 impl Match<std::net::Ipv4Addr> for Prefix4 {
     fn contains(&self, ip: std::net::Ipv4Addr) -> bool {
-        u32::from(ip) & u32::from(self.netmask()) == u32::from(self.addr)
+        /* The prefix might have been written with host bits set (eg 192.0.2.1/24). */
+        u32::from(ip) & u32::from(self.netmask()) == u32::from(self.network())
     }
 }
 
@@ -648,7 +649,7 @@ impl PrefixOps for Prefix6 {
 
 impl Match<std::net::Ipv6Addr> for Prefix6 {
     fn contains(&self, ip: std::net::Ipv6Addr) -> bool {
-        u128::from(ip) & u128::from(self.netmask()) == u128::from(self.addr)
+        u128::from(ip) & u128::from(self.netmask()) == u128::from(self.network())
     }
 }
 
